@@ -46,6 +46,7 @@ class Model:
         self.classes, self.functions, self.imports, self.module_assigns = {}, {}, {}, {}
         self.locals_table, self.alpha_applied, self.noise_removed, self.temps_inlined = alpha.load_table(), [], 0, []
         self.compare_table, self.comparisons_turned, self.conditionals_merged = alpha.load_compare_table(), 0, 0
+        self.loop_table, self.loops_restored = alpha.load_loop_table(), 0
         for dp, dn, fns in os.walk(root):
             dn[:] = [d for d in dn if d != "__pycache__"]
             for f in sorted(fns):
@@ -60,10 +61,10 @@ class Model:
                 self.modules[name] = ast.parse(src, filename=p)
                 self.modules[name]._path = p
                 self.noise_removed += alpha.strip_noise(self.modules[name])         # pass / assert / print / logging statements
-                for _ in range(4):                                                    # else after a branch that always leaves = the rest of the block
-                    if not alpha.unnest_else_after_leave(self.modules[name]):
-                        break
                 alpha.split_tuple_assigns(self.modules[name])                         # one binding per statement
+                for _ in range(4):
+                    if not alpha.unnest_else_after_leave(self.modules[name]):         # else after a branch that always leaves = the rest of the block
+                        break
                 alpha.normalise_polarity(self.modules[name])                          # no `if not c ... else ...`
                 # locals renamed since the rules were confirmed are renamed back (an alpha-conversion; see sa/alpha.py); explaining variables
                 # added since are substituted back, after which a second renaming pass may apply
@@ -75,6 +76,7 @@ class Model:
                     self.temps_inlined += got
                     if not got:
                         break
+                self.loops_restored += alpha.restore_index_loops(self.modules[name], self.loop_table.get(name, set()))           # enumerate(X) / range(len(X)) written the other way since
                 self.comparisons_turned += alpha.orient_comparisons(self.modules[name], self.compare_table.get(name, set()))     # a == b written b == a since the rules were confirmed
                 self.conditionals_merged += alpha.merge_conditional_assignments(self.modules[name])                            # if c: x = a else: x = b  ->  x = a if c else b
                 alpha.normalise_polarity(self.modules[name])
